@@ -119,7 +119,7 @@ func (c *Ctx) runKindLimits(r *Report, rule string, pkgs func(string) bool) {
 				return false
 			}
 			n++
-			cons := fn.id() + ":" + strings.TrimPrefix(why, "case ") + ":" + tv.Value.String()
+			cons := fn.id() + ":" + noSpace(strings.TrimPrefix(why, "case ")) + ":" + noSpace(tv.Value.String())
 			ord[cons]++
 			if ord[cons] > 1 {
 				cons += "#" + itoa(ord[cons])
